@@ -742,6 +742,13 @@ class BaseConnector:
                 if traces:
                     for trace in traces:
                         await trace.send_connection_queued_end()
+            except BaseException:
+                if fut.done() and not fut.cancelled():
+                    # We were woken up for a free slot but are leaving without
+                    # using it (e.g. cancelled or timed out before running):
+                    # pass the wake-up on so the slot is not left unused.
+                    self._release_waiter()
+                raise
             finally:
                 # pop the waiter from the queue if its still
                 # there and not already removed by _release_waiter
